@@ -59,28 +59,10 @@ def run(ck):
                     hits.append("%s calls %s" % (cg.funcs[k].loc(node), dotted))
         ck.ob("P2", f.qualname, "reaches no random, clock or identity source", f.loc(), not hits, "; ".join(hits)[:500])
     for name in ("fit", "fit_vle"):
-        f = repo.find_function(name)
-        calls = [n for n in ast.walk(f.node) if isinstance(n, ast.Call) and ast.unparse(n.func).endswith("minimize")]
-        ck.ob("P2", name, "one optimiser call", f.loc(), len(calls) == 1, "found %d" % len(calls))
-        for c in calls:
-            kw = {k.arg: k.value for k in c.keywords}
-            x0 = kw.get("x0")
-            if x0 is not None:
-                x0 = expand(x0, f.node)
-            names = {n.id for n in ast.walk(x0) if isinstance(n, ast.Name)} if x0 is not None else {"?"}
-            allowed = {"numpy", "_n", "_m", "n", "m"}
-            ck.ob("P2", name, "optimiser start vector is a constant or depends only on the orders", f.loc(c), x0 is not None and names <= allowed,
-                  found=ast.unparse(x0) if x0 is not None else "no x0")
-            meth = kw.get("method")
-            if meth is not None:
-                meth = expand(meth, f.node)
-            loop_vars = {x.id for l in ast.walk(f.node) if isinstance(l, ast.For) for x in ast.walk(l.target) if isinstance(x, ast.Name)}
-            okm = isinstance(meth, ast.Constant) or (isinstance(meth, ast.Name) and meth.id in loop_vars)
-            ck.ob("P2", name, "optimisation method is a constant or the loop's method name", f.loc(c), okm,
-                  found=ast.unparse(meth) if meth is not None else "default")
+        check_optimiser_call(ck, repo, repo.find_function(name))
     # P3
-    check_best_of(ck, repo, repo.find_function("find_best_fit"), data_param="data", grid=True)
-    check_best_of(ck, repo, repo.find_function("fit_vle"), data_param="data", grid=False)
+    check_selection(ck, repo, repo.find_function("find_best_fit"), "data", grid=True)
+    check_selection(ck, repo, repo.find_function("fit_vle"), "data", grid=False)
     # P4
     check_function_forms(ck, repo)
     ck.exhaustive = True
@@ -88,106 +70,127 @@ def run(ck):
     ck.assume("iteration over a set of floats is order-stable for equal data (float hashing is not randomised)")
 
 
-def check_best_of(ck, repo, f: FuncInfo, data_param, grid):
+def check_optimiser_call(ck, repo, f: FuncInfo):
+    """P2 from values: the optimiser's start vector and method, as the evaluator sees them at the call, contain no ambient or
+    opaque source and no measurement value; they are constants or functions of the orders only."""
+    from ..bestof import candidate_atoms, _key_atoms
+    from ..iotables import full_text
+    outs = analyse(repo, f, make_config({}), max_paths=8192)
+    ck.analysed["paths"] += len(outs)
+    atoms = {}
+    for o in outs:
+        if o.kind == "return":
+            for a in _key_atoms(o.value, ("scipy.optimize.minimize",)):
+                atoms[a.id] = a
+        for c, d in o.trace:
+            def walk(k):
+                if isinstance(k, Rat):
+                    for a in candidate_atoms(k, ("scipy.optimize.minimize",)):
+                        atoms[a.id] = a
+                elif isinstance(k, tuple):
+                    for x in k:
+                        walk(x)
+            walk(c)
+    ck.ob("P2", f.qualname, "the optimiser is called", f.loc(), bool(atoms), found="%d distinct optimiser calls" % len(atoms))
+
+    def leaves(k, inside_orders, out):
+        """(kind, text) leaves of a key: symbols, opaque values; symbols inside _suggest_n_m(...) are order information"""
+        if isinstance(k, Rat):
+            for i in k.atom_ids():
+                a = poly.T.get(i)
+                if a.kind == "sym":
+                    out.append(("order" if inside_orders else "sym", a.name))
+                else:
+                    inner = inside_orders or (a.kind == "ucall" and a.name.endswith("_suggest_n_m"))
+                    if a.kind == "ucall" and not a.name.endswith("_suggest_n_m") and not inside_orders:
+                        out.append(("call", a.name))
+                    for x in a.args:
+                        leaves(x, inner, out)
+        elif isinstance(k, tuple):
+            if k and k[0] == "opaque":
+                out.append(("opaque", str(k[1])))
+            elif k and k[0] in ("str?", "maybe", "obj", "list"):
+                out.append(("order" if inside_orders else "sym", str(k[-1])))
+            else:
+                for x in k:
+                    leaves(x, inside_orders, out)
+    for a in atoms.values():
+        kw = {k[0]: k[1] for k in a.args if isinstance(k, tuple) and len(k) == 2 and isinstance(k[0], str)}
+        pos = [k for k in a.args if not (isinstance(k, tuple) and len(k) == 2 and isinstance(k[0], str) and k[0] in ("x0", "method", "args", "bounds", "tol", "options", "jac", "constraints"))]
+        x0 = kw.get("x0", pos[1] if len(pos) > 1 else None)
+        lv = []
+        if x0 is not None:
+            leaves(x0, False, lv)
+        # admitted: the orders themselves and the NUMBER of measurements (the default orders are derived from it); never a measured value
+        bad = [t for t in lv if t[0] in ("opaque", "call") or (t[0] == "sym" and t[1] not in ("n", "m", "_n", "_m") and not t[1].startswith("len("))]
+        ck.ob("P2", f.qualname, "optimiser start vector is a constant or depends only on the orders", f.loc(), x0 is not None and not bad,
+              found=lambda: ("no x0" if x0 is None else "depends on %s" % sorted(set(bad))[:6]))
+        meth = kw.get("method")
+        okm = isinstance(meth, str) or (isinstance(meth, tuple) and meth and meth[0] == "str?" and meth[1] in f.params)
+        ck.ob("P2", f.qualname, "optimisation method is a constant or the caller's choice", f.loc(), okm, found=poly.key_str(meth)[:80])
+
+
+def check_selection(ck, repo, f: FuncInfo, data_param, grid):
+    """P3 decided from the values the evaluator computes (see sa/bestof.py): syntax-independent."""
+    from ..bestof import check_symbolic, check_unrolled
+    from ..symeval import Config
     ck.analysed_function(f)
-    found = None
-    for n in ast.walk(f.node):
-        if isinstance(n, ast.If) and isinstance(n.test, ast.Compare) and len(n.test.ops) == 1 and \
-                isinstance(n.test.left, ast.Name) and isinstance(n.test.comparators[0], ast.Name):
-            a, op, b = n.test.left.id, n.test.ops[0], n.test.comparators[0].id
-            if isinstance(op, (ast.Gt, ast.GtE)):
-                a, b = b, a
-                op = ast.Lt() if isinstance(op, ast.Gt) else ast.LtE()
-            assigns = {}
-            for st in n.body:
-                if isinstance(st, ast.Assign) and len(st.targets) == 1 and isinstance(st.targets[0], ast.Name):
-                    assigns[st.targets[0].id] = st.value
-                elif isinstance(st, ast.Assign) and len(st.targets) == 1 and isinstance(st.targets[0], ast.Tuple) and isinstance(st.value, ast.Tuple) \
-                        and len(st.targets[0].elts) == len(st.value.elts):
-                    for t, v in zip(st.targets[0].elts, st.value.elts):
-                        if isinstance(t, ast.Name):
-                            assigns[t.id] = v
-            if b in assigns and isinstance(assigns[b], ast.Name) and assigns[b].id == a:
-                found = (n, a, op, b, assigns)
-    ck.ob("P3", f.qualname, "selection 'if loss < best_loss: best, best_loss = candidate, loss' present", f.loc(), found is not None)
-    if found is None:
-        return
-    n, loss, op, best_loss, assigns = found
-    where = f.loc(n)
-    ck.ob("P3", f.qualname, "a candidate replaces the best only when its loss is smaller (or equal)", where,
-          isinstance(op, (ast.Lt, ast.LtE)), found=ast.unparse(n.test))
-    others = {k: v for k, v in assigns.items() if k != best_loss}
-    ck.ob("P3", f.qualname, "best candidate and best loss are updated together", where, len(others) == 1 and not n.orelse,
-          found=", ".join(assigns))
-    if len(others) != 1:
-        return
-    best, cand_expr = next(iter(others.items()))
-    # enclosing loop and definition of loss / candidate inside it
-    loop = None
-    for l in ast.walk(f.node):
-        if isinstance(l, ast.For) and any(x is n for x in ast.walk(l)):
-            loop = l   # innermost wins (later in walk order = deeper)
-    ck.ob("P3", f.qualname, "selection happens inside the candidate loop", where, loop is not None)
-    if loop is None:
-        return
-    outer = [l for l in ast.walk(f.node) if isinstance(l, ast.For) and any(x is n for x in ast.walk(l))]
-    exits = [x for l in outer for x in ast.walk(l) if isinstance(x, (ast.Break, ast.Continue, ast.Return))]
-    ck.ob("P3", f.qualname, "every candidate of the grid is fitted and compared (no early exit from the candidate loops)", where, not exits,
-          "; ".join("%s at line %d" % (type(x).__name__.lower(), x.lineno) for x in exits))
-    loss_defs = [st for st in loop.body if isinstance(st, ast.Assign) and any(isinstance(t, ast.Name) and t.id == loss for t in st.targets)]
-    ck.ob("P3", f.qualname, "loss of the candidate is computed in the same iteration", where, len(loss_defs) == 1)
-    if len(loss_defs) == 1:
-        cand_names = {x.id for x in ast.walk(cand_expr) if isinstance(x, ast.Name)}
-        # temporaries and local one-expression helpers are substituted away; the candidate itself is kept by name
-        loss_value = expand(loss_defs[0].value, f.node, keep=cand_names | {loss})
-        loss_defs = [ast.Assign(targets=loss_defs[0].targets, value=loss_value, lineno=loss_defs[0].lineno, col_offset=0)]
-        names = {x.id for x in ast.walk(loss_value) if isinstance(x, ast.Name)}
-        # the candidate may be referenced through a variable it was derived from in this iteration (e.g. result -> result.x)
-        ck.ob("P3", f.qualname, "loss is computed from the caller's own data", f.loc(loss_defs[0]), data_param in names,
-              "the data the loss is evaluated on must be the function's parameter %r, not a working copy" % data_param,
-              found=ast.unparse(loss_defs[0].value)[:200])
-        iters = [g.iter for x in ast.walk(loss_defs[0].value) if isinstance(x, (ast.ListComp, ast.GeneratorExp, ast.SetComp)) for g in x.generators]
-        data_iters = [i for i in iters if data_param in {y.id for y in ast.walk(i) if isinstance(y, ast.Name)}]
-        ck.ob("P3", f.qualname, "loss runs over all of the caller's data", f.loc(loss_defs[0]),
-              all(isinstance(i, ast.Name) and i.id == data_param for i in data_iters),
-              found="; ".join(ast.unparse(i) for i in data_iters))
-        ck.ob("P3", f.qualname, "loss is computed from this iteration's candidate", f.loc(loss_defs[0]), bool(names & cand_names),
-              found="loss uses %s; candidate is %s" % (sorted(names), ast.unparse(cand_expr)))
-    # initialisation before the loops
-    init_ok = False
-    init_src = None
-    for st in ast.walk(f.node):
-        if isinstance(st, ast.Assign) and any(isinstance(t, ast.Name) and t.id == best_loss for t in st.targets) and st.lineno < loop.lineno:
-            init_src = ast.unparse(st.value)
-            v = st.value
-            init_ok = (isinstance(v, ast.Attribute) and v.attr in ("inf", "Inf", "infty")) or \
-                      (isinstance(v, ast.Constant) and isinstance(v.value, (int, float)) and v.value > 0) or \
-                      (isinstance(v, ast.Call) and ast.unparse(v) in ("float('inf')", 'float("inf")'))
-    ck.ob("P3", f.qualname, "best loss starts at +inf or a positive constant bound", where, init_ok, found=str(init_src))
-    inner = {id(x) for d in ast.walk(f.node) if isinstance(d, (ast.FunctionDef, ast.Lambda)) and d is not f.node for x in ast.walk(d)}
-    rets = [r for r in ast.walk(f.node) if isinstance(r, ast.Return) and r.value is not None and id(r) not in inner]
-    ok_ret = bool(rets) and all(best in {x.id for x in ast.walk(r.value) if isinstance(x, ast.Name)} for r in rets)
-    ck.ob("P3", f.qualname, "the accumulator is what is returned", f.loc(rets[0]) if rets else where, ok_ret,
-          found="; ".join(ast.unparse(r.value) for r in rets))
-    if grid:
-        src = ast.unparse(f.node)
-        for var, p in (("n", "n"), ("m", "m")):
-            ok = ("range(%s + 1)" % p) in src
-            ck.ob("P3", f.qualname, "with a given order %s every order 0..%s is tried" % (p, p), f.loc(), ok)
-        loops = [l for l in ast.walk(f.node) if isinstance(l, ast.For)]
-        nested = any(isinstance(x, ast.For) and x is not l for l in loops for x in ast.walk(l) if x is not l)
-        # the same grid written as one loop over the cartesian product of the two candidate lists
-        it = expand(loop.iter, f.node)
-        product = isinstance(it, ast.Call) and ast.unparse(it.func) in ("itertools.product", "product") and len(it.args) == 2 and not it.keywords
-        ck.ob("P3", f.qualname, "candidates form the full n x m grid (nested loops or their cartesian product)", f.loc(), nested or product)
-        fits = [c for c in ast.walk(loop) if isinstance(c, ast.Call) and ast.unparse(c.func) == "fit"]
-        ok = False
-        if len(fits) == 1:
-            kw = {k.arg: ast.unparse(k.value) for k in fits[0].keywords}
-            pos = [ast.unparse(a) for a in fits[0].args]
-            ok = (pos[:1] == [data_param] or kw.get("data") == data_param) and kw.get("include_zero") == "include_zero" and \
-                kw.get("component_index") == "component_index"
-        ck.ob("P3", f.qualname, "each candidate is fitted on the caller's data with the caller's options", f.loc(loop), ok)
+    cfg = make_config({})
+    outs = analyse(repo, f, cfg, max_paths=8192)
+    ck.analysed["paths"] += len(outs)
+    rets = [o for o in outs if o.kind == "return"]
+    ck.ob("P3", f.qualname, "the search completes on some path", f.loc(), bool(rets))
+    suffixes = ("fit", "scipy.optimize.minimize")
+    try:
+        data_len = Oracle(repo, f, cfg, {}).eval("len(%s)" % data_param).r
+    except Exception:
+        data_len = None
+    fit_f = repo.find_function("fit")
+
+    def grid_rule(ck_, f_, o, cand, loc):
+        """the candidate's orders are the indices of loops over 0..n and 0..m (given orders), and it is fitted on the caller's
+        data with the caller's options"""
+        if not cand.name.endswith("fit"):
+            return
+        params = fit_f.params + fit_f.kwonly
+        args = dict(zip(params, cand.args))
+        orc = Oracle(repo, f_, cfg, dict(o.facts))
+        from ..symeval import val_key as vk
+        for p in ("data", "include_zero", "component_index"):
+            want = poly.key_str(vk(orc.eval(p if p != "data" else data_param)))
+            got = poly.key_str(args.get(p))
+            ck_.ob("P3", f_.qualname, "each candidate is fitted on the caller's data with the caller's options (%s)" % p, loc, got == want,
+                   expected=want[:120], found=got[:120])
+        for p in ("n", "m"):
+            given = None
+            for c, d in o.trace:
+                if isinstance(c, tuple) and c == ("isnone", p):
+                    given = not d
+            if not given:
+                continue
+            a = args.get(p)
+            ok = False
+            found = poly.key_str(a)[:120]
+            want_n = Rat.sym(p, ("int",)) + 1
+            if isinstance(a, Rat) and a.single_atom() is not None:
+                at = a.single_atom()
+                for lr in o.loops:
+                    if lr.kind != "for":
+                        continue
+                    if lr.k is not None and lr.k.id == at.id:
+                        ok = lr.lo.is_zero() and lr.hi == want_n
+                        found = "loop over %s..%s" % (lr.lo, lr.hi)
+                    fac = getattr(getattr(lr, "iter_val", None), "factors", None)
+                    if fac and at.kind == "sym" and at.name.startswith("product(") and lr.k is not None and ("[%s]" % lr.k.name) in at.name:
+                        pos = 0 if at.name.endswith("[0]") else 1
+                        fv = fac[pos] if pos < len(fac) else None
+                        if isinstance(fv, ListV) and fv.kind == "fam":
+                            ok = fv.lo.is_zero() and fv.hi == want_n
+                            found = "product factor over %s..%s" % (fv.lo, fv.hi)
+            ck_.ob("P3", f_.qualname, "with a given order %s every order 0..%s is tried" % (p, p), loc, ok, found=found)
+    n1 = check_symbolic(ck, f, outs, data_param, data_len, suffixes, grid=grid_rule if grid else None)
+    n2 = check_unrolled(ck, f, outs, data_param, suffixes)
+    ck.floor("selection decisions analysed in %s" % f.qualname, n1 + n2, 2)
 
 
 def check_function_forms(ck, repo):
